@@ -468,16 +468,19 @@ impl BoundsAnalyzer {
             .any(|bounds| bounds.lower == f64::INFINITY || bounds.upper == f64::NEG_INFINITY)
     }
 
-    /// Whether the derived range of an integer variable holds no integer: no
-    /// value of that variable satisfies the constraints it was derived from.
+    /// Whether the derived range of an integer or Boolean variable holds no
+    /// integer: no value of that variable satisfies the constraints it was
+    /// derived from.
     /// Same rounding as `apply_to_domain`, which keeps the declared domain then.
     pub(crate) fn has_integer_range_without_integer(
         &self,
         domain: &IndexMap<String, DomainVariable>,
     ) -> bool {
         domain.iter().any(|(name, variable)| {
-            matches!(variable.get_type(), VariableType::IntegerRange(_, _))
-                && self.variable_bounds.get(name).is_some_and(|bounds| {
+            matches!(
+                variable.get_type(),
+                VariableType::IntegerRange(_, _) | VariableType::Boolean
+            ) && self.variable_bounds.get(name).is_some_and(|bounds| {
                     (bounds.lower - self.tolerance).ceil() > (bounds.upper + self.tolerance).floor()
                 })
         })
